@@ -129,6 +129,14 @@ func (bbs *BBSG2Pub) VerifyProof(messagesBytes [][]byte, proof, nonce, pubKeyByt
 		return fmt.Errorf("payload revealed bigger from messages")
 	}
 
+	// a disclosed index must exist (the bit vector is padded to whole bytes): the message handed in for a padding bit
+	// would be accepted without ever being looked at.
+	for _, ind := range payload.revealed {
+		if ind >= payload.messagesCount {
+			return fmt.Errorf("payload reveals index %d of %d messages", ind, payload.messagesCount)
+		}
+	}
+
 	revealedMessages := make(map[int]*SignatureMessage)
 	for i := range payload.revealed {
 		revealedMessages[payload.revealed[i]] = messages[i]
